@@ -60,7 +60,7 @@ pub fn zoo_entries() -> Vec<Entry> {
         Scalars, Options, Inner, Seqs, Maps, Nested, Deeper, Recursive, UnitEnum, RenamedUnit, DocUnit, External, Internal, Adjacent,
         Untagged, Strict, Renamed, WithDefaults, Ranges, Lengths, Patterns, Documented, Formats, Tuples, Newtype, Transparent,
         Flattened, FlattenedEnum, UsesGeneric, DeprecatedStruct, HasDeprecated, WithExample, ReadWrite, ValueHolder, Bytes, MixedDoc,
-        BigInts, EnumHolder, Bounds2, WithTuple, Overlap, NumOverlap, OverlapHolder,
+        BigInts, EnumHolder, Bounds2, Wrappers, LowerUnit, TaggedNewtype, AdjDoc, Defaults2, Lengths2, Ranges2, SetsAndTuples, AllOptional, StrictRenamed, UntaggedNamed, RefHolder, SchemaOnlyStrict, Titled, Chars, Nums, WithTuple, Overlap, NumOverlap, OverlapHolder,
         u8, i64, f64, bool, String, char, Vec<u32>, Vec<Inner>, Option<Inner>, Option<u16>, std::collections::BTreeMap<String, Inner>,
         (), Vec<Option<UnitEnum>>, Generic<Option<Inner>>, Box<Recursive>, [Inner; 2], uuid::Uuid, chrono::DateTime<chrono::Utc>,
         std::collections::BTreeSet<u8>, Option<Vec<External>>, std::collections::BTreeMap<String, Vec<Adjacent>>,
@@ -506,10 +506,22 @@ fn enrich(node: &mut Map<String, Value>, kind: u8, n: i16) {
             node.insert("nullable".into(), json!(true));
         }
         (9, Some("integer")) | (9, Some("number")) => {
-            node.insert("minimum".into(), json!((n % 50) as f64));
+            // mostly small whole numbers; sometimes a limit far outside the i64 range or a fractional one
+            let v = match n.unsigned_abs() % 9 {
+                0 => -1.0e19 - (n % 50) as f64,
+                1 => (n % 50) as f64 + 0.5,
+                _ => (n % 50) as f64,
+            };
+            node.insert("minimum".into(), json!(v));
         }
         (10, Some("integer")) | (10, Some("number")) => {
-            node.insert("maximum".into(), json!((n % 50 + 60) as f64));
+            let v = match n.unsigned_abs() % 9 {
+                0 => 18446744073709551615.0,
+                1 => (n % 50 + 60) as f64 + 0.25,
+                2 => 9223372036854775807.0,
+                _ => (n % 50 + 60) as f64,
+            };
+            node.insert("maximum".into(), json!(v));
         }
         (11, Some("integer")) | (11, Some("number")) if !node.contains_key("minimum") => {
             node.insert("exclusiveMinimum".into(), json!((n % 50) as f64));
@@ -658,7 +670,7 @@ fn check_enriched(c: &EnrichCase, st: &mut Stats) -> Result<(), Failure> {
 
 pub fn run(ctx: &mut Ctx) {
     ctx.rule = "real schemars output for a compiled zoo of ~70 types (numeric widths, formats, options, sequences, sets, maps, nested/recursive/generic structs, enums in all four serde representations, flatten, deny_unknown_fields, range/length/regex validation attributes, docs, defaults, deprecated, examples) published as request body and response; plus run-time enrichment of those schemas with keywords from the statement's vocabulary at random positions, published inline and by reference. Oracles: (1) differential - verdict of a JSON-Schema validator on the type's own schema (schemars draft-07 settings) == verdict of an OpenAPI-3.0 validator on the published schema, on schema-directed valid and near-miss instances; (2) structural - every constraint keyword and listed annotation of the schema handed to dropshot has its dialect image in the published schema. non-trivial: instance that the type's own schema rejects (a constraint bit); type with >= 3 distinct keywords; enriched schema with >= 2 added keywords and a rejected instance".into();
-    ctx.assume("schemas the converter refuses with one of its explicit 'unsupported' panics are counted, not judged; a title on an inline top-level schema may be replaced by the type name; integer bounds added by enrichment are integral and small");
+    ctx.assume("schemas the converter refuses with one of its explicit 'unsupported' panics are counted, not judged; a title on an inline top-level schema may be replaced by the type name; numeric limits added by enrichment are mostly small whole numbers, sometimes beyond the i64 range or fractional");
     let n_types = ZOO.with(|z| z.len()) as u16;
     ctx.enumerate("structure", 0..n_types, true, check_structure);
     let n = ctx.tier.pick(150000, 2000000);
